@@ -924,9 +924,20 @@ class Interp:
                 lo.elem = lo.items[1]
                 lo.comp_node = st
                 lo.comp_iter = _count_term(it)
+                # the generic container of a dictionary of buckets holds what was appended under ITS key only
+                lo.filtered_by_key = getattr(lo, "per_key_of", None) is not None
             else:
                 lo.elem = None
             lo.items = None
+        # the generic bucket of a dictionary of buckets is created in the first iteration (d.setdefault(key, [])) and filled in
+        # every one: [elem(i) for the iterations i that ran under this key]
+        for lo in self.all_lists:
+            if id(lo) not in list_before and getattr(lo, "per_key_of", None) is not None and lo.items is not None and len(lo.items) == 2 and not gen_broke and getattr(lo, "comp_node", None) is None:
+                lo.elem = lo.items[1]
+                lo.comp_node = st
+                lo.comp_iter = _count_term(it)
+                lo.filtered_by_key = True
+                lo.items = None
         info["generic"] = {"env": {n: env.get(n) for n in assigned}, "terms": {o: o.term for o in mutated},
                            "effects": self.effects[ne1:], "broke": gen_broke}
         info["carried"] = carried_syms
